@@ -8,6 +8,7 @@ import (
 	"github.com/go-git/go-git/v6/internal/repository"
 	"github.com/go-git/go-git/v6/plumbing/storer"
 	"github.com/go-git/go-git/v6/storage"
+	"github.com/go-git/go-git/v6/utils/ioutil"
 )
 
 // UpdateServerInfo updates the server info files in the repository.
@@ -15,7 +16,7 @@ import (
 // It generates a list of available refs for the repository.
 // Used by git http transport (dumb), for more information refer to:
 // https://git-scm.com/book/id/v2/Git-Internals-Transfer-Protocols#_the_dumb_protocol
-func UpdateServerInfo(s storage.Storer, fs billy.Filesystem) error {
+func UpdateServerInfo(s storage.Storer, fs billy.Filesystem) (err error) {
 	pos, ok := s.(storer.PackedObjectStorer)
 	if !ok {
 		return ErrPackedObjectsNotSupported
@@ -26,7 +27,7 @@ func UpdateServerInfo(s storage.Storer, fs billy.Filesystem) error {
 		return err
 	}
 
-	defer func() { _ = infoRefs.Close() }()
+	defer ioutil.CheckClose(infoRefs, &err)
 
 	refsIter, err := s.IterReferences()
 	if err != nil {
@@ -44,7 +45,7 @@ func UpdateServerInfo(s storage.Storer, fs billy.Filesystem) error {
 		return err
 	}
 
-	defer func() { _ = infoPacks.Close() }()
+	defer ioutil.CheckClose(infoPacks, &err)
 
 	if err := repository.WriteObjectsInfoPacks(infoPacks, pos); err != nil {
 		return fmt.Errorf("failed to write objects/info/packs: %w", err)
